@@ -167,8 +167,16 @@ func VerifC01Session() {
 	f21 := false
 	// natively the queue's forwarding goroutine needs a moment to move an enqueued update into the channel
 	queued := func() bool {
-		time.Sleep(20 * time.Millisecond)
-		return len(obs.state.GetStateUpdatesCh()) > 0
+		n := -1
+		for i := 0; i < 20; i++ { // until two reads 25 ms apart agree (time.Sleep is a no-op under the engine)
+			time.Sleep(25 * time.Millisecond)
+			m := len(obs.state.GetStateUpdatesCh())
+			if m == n {
+				break
+			}
+			n = m
+		}
+		return n > 0
 	}
 	one := func(seq int) []command.SeqRange {
 		return []command.SeqRange{{Begin: command.SeqNum(seq), End: command.SeqNum(seq)}}
